@@ -96,12 +96,14 @@ Definition run_probe1 : list N :=
 
 Definition suite_C11probe (inp obs : list tok) : verdict :=
   match inp, obs with
-  | [TN 0; TN n; TN hold], [TL o] =>
-      if (n <? 64) && (hold <? 2) then
-      {| v_model := [TL (run_probe0 n hold)]; v_ok := ok_probe0 n hold o; v_wellformed := true |}
+  | [TN kk; TN n; TN hold], [TL o] =>
+      if kk =? 1 then
+        {| v_model := [TL run_probe1]; v_ok := ok_probe1 o; v_wellformed := true |}
+      (* kind 2 = kind 0 with ONE handle shared by reference (no clone of the GuestMemoryAtomic exists):
+         the update lock must exclude other updaters no matter how many handles there are *)
+      else if ((kk =? 0) || (kk =? 2)) && (n <? 64) && (hold <? 2) then
+        {| v_model := [TL (run_probe0 n hold)]; v_ok := ok_probe0 n hold o; v_wellformed := true |}
       else malformed
-  | [TN 1; TN _; TN _], [TL o] =>
-      {| v_model := [TL run_probe1]; v_ok := ok_probe1 o; v_wellformed := true |}
   | _, _ => malformed end.
 
 (* ---- stress: the machine run on the canonical schedule (each updater runs its protocol to the end);
